@@ -1,6 +1,6 @@
 import FsnVerif.Proofs.DecodeLemmas
 import FsnVerif.Proofs.InotifyLemmas
-import FsnVerif.Props.C15
+import FsnVerif.Generated.Tables
 /-!
 # C01 — No lost events
 
@@ -98,10 +98,11 @@ theorem no_spurious_overflow (l : Lib) (env : Env) (r : Raw) (ho : ((r.mask &&& 
   unfold Lib.stepRecord
   simp [ho]
 
-/-- under `Add`, every native bit that can translate to a default operation is subscribed -/
-theorem default_request_complete (k : Nat) (hk : k < 32)
-    (h : opHas (Gen.inotifyNewEventOp (BitVec.twoPow 32 k)) Gen.defaultOps = true) :
-    (Gen.inotifyRequest false Gen.defaultOps).getLsbD k = true := C15.default_request_complete k hk h
+/-- under `Add`, every native bit that can translate to a default operation is subscribed
+(evaluated by the kernel directly on the regenerated request and translation tables) -/
+theorem default_request_complete : ∀ k, k < 32 →
+    opHas (Gen.inotifyNewEventOp (BitVec.twoPow 32 k)) Gen.defaultOps = true →
+    (Gen.inotifyRequest false Gen.defaultOps).getLsbD k = true := by decide +kernel
 
 /-! ### non-vacuity: a two-record buffer (15- and 16-byte names, paddings 1 and 16) decodes to both -/
 def r15 : Raw := { wd := 3, mask := IN_CREATE, cookie := 0#32, len := 16, name := padName (List.replicate 15 97) }
